@@ -211,14 +211,15 @@ Proof. vm_compute. repeat split; reflexivity. Qed.
    body passes the decidable shape check file_chk of Spec/JsShape.v (expressions where expressions are expected,
    names that are identifiers, the first namespace segment not reserved, finite floats, functions and directives soyjs
    knows -- their table texts are NOT assumed well formed, the check runs the recogniser over them with a hole per
-   argument --, one default per switch, no {msg}) and the generator model succeeds, then
+   argument --, one default per switch; {msg} with and without a translation bundle, plurals included) and the
+   generator model succeeds, then
      - the chunk list lexes (lex_chunks: every CText scanned byte by byte, a CStrLit one string token, a CName a
        dotted identifier, a CNum a signed number, the header a comment),
      - the recogniser js_parse of Spec/JsSyntax.v accepts the tokens (Script or Module according to the formatter),
      - the function definitions of the parse are exactly the file's templates, in order, under their qualified
        names (ES5) / ES6 identifiers,
      - and the tokens are bracket balanced: every ) ] } closes the innermost open bracket, of its own kind.
-   MISSING for the full statement: (1) {msg} commands (file_chk rejects them); (2) that the Soy parser's output
+   MISSING for the full statement: (2) that the Soy parser's output
    satisfies file_chk -- the harness evaluates file_chk on every accepted file it generates and reports how many
    pass; (3) lex_bytes (render_chunks cs) = lex_chunks cs -- the harness compares the two token lists on every
    generated file; (4) that the grammar is a subset of ECMAScript -- tested against V8 on the generated files and
